@@ -1,5 +1,7 @@
 import PyTrie.Lemmas.FreeExec
 import PyTrie.Lemmas.FreePartial
+import PyTrie.Lemmas.FreeView
+import PyTrie.Lemmas.CacheNoDupPres
 /-! # The tree-free executor (C01, C04, C06, C07 over a transcription with no tree)
 
 `Model/HexFree.lean` is `HexaryTrie.set` / `delete` / `get` as the code runs them: the trie is a root hash and a `prune`
@@ -97,5 +99,77 @@ theorem op_missing_atomic (H : Bytes → Bytes) (hlen : ∀ b, (H b).length = 32
     s.store.contains h = false ∧
     (h = T.root ∨ OnPath (stdHashing H) T.tree (nibs key) h ∨ SiblingOnPath (stdHashing H) T.tree (nibs key) h) :=
   freeSetDel_missing_atomic H hlen T hc key val s hcache hroot hst hrs h root rk pre he
+
+end PyTrie.Props.Free
+
+/-! ## The tree-free executor over a `ScratchDB`, and the tree-free world in lockstep with the tree-carrying one (C05)
+
+`storeDb st` is what a trie can read through its database object (the buffered writes of a `ScratchDB` in front of the
+wrapped dict; a buffered *delete* reads through). `FWorld` is `squash_changes` without trees. `Sim fw w`: same database,
+one outer trie with the same root / prune flag / counts, the same open block (cache, batch root, batch counts). Two
+specification subtleties were machine-found while proving this: the view only agrees with `ScratchDB.__contains__` /
+`__getitem__` when the cache has unique keys (true of every cache built by writes; `CacheNoDup`, preserved by every
+executor step: `Lemmas/CacheNoDupPres.lean`), and the world must *have* a counts slot for its trie. -/
+namespace PyTrie.Props.Free
+open PyTrie PyTrie.Hex PyTrie.HexD PyTrie.HexW PyTrie.HexRaw PyTrie.HexFree
+
+/-- one `set` / `delete` over any store — plain dict or `ScratchDB` — whose view is complete for the trie's root -/
+theorem op_is_executor_op_view (H : Bytes → Bytes) (hlen : ∀ b, (H b).length = 32) (T : TrieSt) (hc : Canon T.tree) (key : Bytes)
+    (val : Option Bytes) (s : OpSt) (hnd : s.store.CacheNoDup)
+    (hcomp : Complete (stdHashing H) (blankRoot H) (storeDb s.store) T)
+    (hbk : Dict.get? (storeDb s.store) (blankRoot H) = none)
+    (hsm : ∀ h b, Dict.get? (storeDb s.store) h = some b → b.length < 2 ^ 64) :
+    freeSetDel H (toFree T) key val s =
+      ((opSetDel (stdHashing H) (blankRoot H) T key val s).1,
+       match (opSetDel (stdHashing H) (blankRoot H) T key val s).2 with
+       | .ok T' => .ok (toFree T')
+       | .error e => .error e) :=
+  freeSetDel_is_opSetDel_view H hlen T hc key val s hnd hcomp hbk hsm
+
+/-- reading through the database object is looking up the view (unique cache keys) — and not otherwise -/
+theorem view_is_what_is_read (st : Store) (hnd : st.CacheNoDup) (h : Hash) : lookup (storeDb st) h = st.get? h :=
+  lookup_storeDb st h hnd
+
+/-- entering a block keeps the two worlds in step -/
+theorem lockstep_begin (fw : FWorld) (w : World) (h : Sim fw w) (hb : w.batch = none) : Sim fw.batchBegin (w.batchBegin 0) :=
+  sim_batchBegin fw w h hb
+
+/-- leaving a block — normally, by an exception, or with a failing commit — gives the same outcome and keeps them in step -/
+theorem lockstep_end (fw : FWorld) (w : World) (h : Sim fw w) (raised : Bool) :
+    (fw.batchEnd raised).1 = (w.batchEnd raised).1 ∧ Sim (fw.batchEnd raised).2 (w.batchEnd raised).2 :=
+  sim_batchEnd fw w h raised
+
+/-- an operation on the outer trie keeps them in step (same outcome / exception) -/
+theorem lockstep_op_outer (H : Bytes → Bytes) (hlen : ∀ b, (H b).length = 32) (fw : FWorld) (w : World) (h : Sim fw w) (key : Bytes)
+    (val : Option Bytes) (hc : Canon w.tries[0]!.tree)
+    (hcomp : Complete (stdHashing H) (blankRoot H) (storeDb (w.opSt 0).store) w.tries[0]!)
+    (hbk : Dict.get? (storeDb (w.opSt 0).store) (blankRoot H) = none)
+    (hsm : ∀ x b, Dict.get? (storeDb (w.opSt 0).store) x = some b → b.length < 2 ^ 64) :
+    (match (fw.setDel H false key val).1, (w.setDel (stdHashing H) (blankRoot H) (.trie 0) key val).1 with
+     | .ok _, .ok _ => True
+     | .error e, .error e' => e = e'
+     | _, _ => False) ∧
+    Sim (fw.setDel H false key val).2 (w.setDel (stdHashing H) (blankRoot H) (.trie 0) key val).2 :=
+  sim_setDel_outer H hlen fw w h key val hc hcomp hbk hsm
+
+/-- an operation on the batch trie of the open block keeps them in step -/
+theorem lockstep_op_batch (H : Bytes → Bytes) (hlen : ∀ b, (H b).length = 32) (fw : FWorld) (w : World) (h : Sim fw w) (b : Batch)
+    (hwb : w.batch = some b) (hnd : NoDupKeys b.cache) (key : Bytes) (val : Option Bytes) (hc : Canon b.trie.tree)
+    (hcomp : Complete (stdHashing H) (blankRoot H) (storeDb (w.batchOpSt b).store) b.trie)
+    (hbk : Dict.get? (storeDb (w.batchOpSt b).store) (blankRoot H) = none)
+    (hsm : ∀ x b', Dict.get? (storeDb (w.batchOpSt b).store) x = some b' → b'.length < 2 ^ 64) :
+    (match (fw.setDel H true key val).1, (w.setDel (stdHashing H) (blankRoot H) .batch key val).1 with
+     | .ok _, .ok _ => True
+     | .error e, .error e' => e = e'
+     | _, _ => False) ∧
+    Sim (fw.setDel H true key val).2 (w.setDel (stdHashing H) (blankRoot H) .batch key val).2 :=
+  sim_setDel_batch H hlen fw w h b hwb hnd key val hc hcomp hbk hsm
+
+/-- the cache of the open block keeps unique keys through every step of the world -/
+theorem cache_keys_unique_begin (w : World) (i : Nat) : (w.batchBegin i).BatchNoDup := World.batchNoDup_batchBegin w i
+
+theorem cache_keys_unique_op (Hs : Hashing) (blankRootHash : Hash) (w : World) (tg : Target) (key : Bytes) (val : Option Bytes)
+    (h : w.BatchNoDup) : (w.setDel Hs blankRootHash tg key val).2.BatchNoDup :=
+  World.batchNoDup_setDel Hs blankRootHash w tg key val h
 
 end PyTrie.Props.Free
